@@ -1,5 +1,6 @@
 import DispatchVerif.Core.IoP4
-/-! # C14 — dispatch I/O delivers every byte once, in order; each operation completes once (read path)
+import DispatchVerif.Core.IoW2
+/-! # C14 — dispatch I/O delivers every byte once, in order; each operation completes once (read and write paths)
 
 `IoP` models one stream READ operation of `src/io.c`: the buffer sizing at the top of `_dispatch_operation_perform`,
 the outcome of `read()`, `_dispatch_operation_deliver_data` with its flags, the result switch of
@@ -40,5 +41,29 @@ example : Inv { length := some 12, low := 5, high := 5, chunk := 1048576 } := by
 example : ((run { length := some 12, low := 5, high := 5, chunk := 1048576 }
     [.bytes [0, 1, 2], .bytes [3, 4], .bytes [5, 6, 7], .bytes [8, 9], .bytes [10, 11]]).1.map fun c => (c.done, c.data.length))
     = [(false, 5), (false, 5), (true, 2)] := by decide
+
+/-! ## write path (`IoW`): buffer selection over the regions of the data object, short writes, water marks, trimming -/
+
+/-- **write conservation**: for every data object (any regions), any water marks and chunk size and every legal sequence of
+    write() outcomes, the bytes handed to the kernel are — in order, each once — a prefix of the submitted data; every data
+    object the handler receives is exactly the part not written at that moment; `done` is reported once, by the last call -/
+theorem write_conservation (regs : List (List IoW.Byte)) (low high chunk : Nat) (hne : ∀ r ∈ regs, r ≠ []) (hd : regs ≠ [])
+    (hh : 0 < high) (hc : 0 < chunk) (os : List IoW.Outcome) (hleg : IoW.Legal (IoW.fresh regs low high chunk) os) :
+    let r := IoW.run (IoW.fresh regs low high chunk) os
+    r.1 = regs.flatten.take r.1.length ∧ r.1.length ≤ regs.flatten.length ∧
+    (∀ kc ∈ r.2.1, kc.1 ≤ r.1.length ∧ ∀ d, kc.2.rem = some d → regs.flatten.take kc.1 ++ d = regs.flatten) ∧
+    (r.2.2 = true → ∃ pre c, r.2.1 = pre ++ [c] ∧ c.2.done = true ∧ ∀ x ∈ pre, x.2.done = false) ∧
+    (r.2.2 = false → ∀ x ∈ r.2.1, x.2.done = false) :=
+  IoW.write_conservation regs low high chunk hne hd hh hc os hleg
+
+/-- never a zero-length write while bytes remain -/
+theorem write_len_pos {orig : List IoW.Byte} {op : IoW.Op} (h : IoW.Inv orig op true) (hlt : op.total < op.length) :
+    0 < IoW.writeLen op := IoW.write_len_pos h hlt
+
+/-- non-vacuity: four 6-byte regions with high water 10 and low water 8 are written 6, 6, 6, 6 with one progress report of the
+    12 bytes then unwritten and the final done — the sequence observed on the real library -/
+example : ((IoW.run (IoW.fresh [[0,1,2,3,4,5],[6,7,8,9,10,11],[12,13,14,15,16,17],[18,19,20,21,22,23]] 8 10 1048576)
+    [.wrote 6, .wrote 6, .wrote 6, .wrote 6]).2.1.map fun kc => (kc.1, kc.2.done, kc.2.rem.map List.length))
+    = [(12, false, some 12), (24, true, none)] := by decide
 
 end C14
